@@ -472,7 +472,7 @@ fn gen_cases(p: &mut Prng, pools: &Pools, n: u64) -> Vec<Value> {
 				wild,
 				max_sigs: if big { 255 } else { 6 },
 				max_coms: if big { 40 } else { 5 },
-				proof_den: if big { 8 } else { 3 },
+				proof_den: if big { 8 } else { 4 },
 			},
 		);
 		let mut v = v;
